@@ -71,6 +71,10 @@ class Scheduler:
         self.points = 0
         self.point_log = None                 # optional list of (thread, kind) per point
         self.shared_access = None
+        self.extra = None
+        self.slice = 150                  # fairness: max consecutive points of one thread while others are enabled
+        self._streak = 0
+        self.choices_open = True          # harness may close the window in which deviations are offered
         self._tracer_cache = {}
 
     # ------------------------------------------------------------ logging
@@ -174,30 +178,76 @@ class Scheduler:
             self._abort('OVERRUN')
 
     def point(self, kind, info=None):
-        """A scheduling point of the running thread (which stays enabled)."""
+        """A scheduling point of the running thread (which stays enabled).
+
+        Alternatives, in order: stay (0) | switch to another enabled thread (1
+        each) | stall: time jumps to the next timer (1) | extras offered by the
+        harness through self.extra(self) -> [(label, cost, action)]."""
         self._check_limits()
         me = self.current
         self.points += 1
         if self.point_log is not None:
             self.point_log.append((me.name, kind, info))
         en = self._enabled()
+        self._streak += 1
+        if self._streak > self.slice and len(en) > 1:
+            # time slice used up: like an OS, let the next enabled thread run
+            self._switch_to(en[1])
+            return
         timers = self.stall and any(t.state == 'blocked' and t.wake_time is not None for t in self.threads)
-        n = len(en) + (1 if timers else 0)
+        extras = self.extra(self) if self.extra is not None else ()
+        forced = [e for e in extras if e[1] is None]
+        if forced:
+            target = forced[0][2](self)
+            if target is not None:
+                self._switch_to(target)
+            return
+        if not self.choices_open:
+            timers = False
+            en = en[:1]
+        n = len(en) + (1 if timers else 0) + len(extras)
         if n <= 1:
             return
-        costs = [0] + [1] * (n - 1)
+        costs = [0] + [1] * (len(en) - 1) + ([1] if timers else []) + [e[1] for e in extras]
         c = self.chooser.choose(n, '%s:%s' % (me.name, kind), costs)
         if c == 0:
             return
-        if c == len(en):                     # stall: time jumps to the next timer
-            self._advance_time()
-            return self.point('after-stall')
-        self._switch_to(en[c])
+        if c < len(en):
+            self._switch_to(en[c])
+            return
+        c -= len(en)
+        if timers:
+            if c == 0:                       # stall: time jumps to the next timer
+                self._advance_time()
+                return self.point('after-stall')
+            c -= 1
+        target = extras[c][2](self)          # harness action; may name a thread to run now
+        if target is not None:
+            self._switch_to(target)
+
+    def yield_point(self, kind):
+        """The running thread found nothing to wait for and is about to loop
+        (a spin).  Fair default: run another enabled thread, if there is one;
+        staying is a deviation."""
+        self._check_limits()
+        self.points += 1
+        en = self._enabled()
+        if len(en) <= 1:
+            return
+        others = en[1:]
+        if not self.choices_open:
+            self._switch_to(others[0])
+            return
+        order = others + [en[0]]
+        c = self.chooser.choose(len(order), '%s:yield:%s' % (self.current.name, kind), [0] + [1] * (len(order) - 1))
+        if order[c] is not self.current:
+            self._switch_to(order[c])
 
     def _switch_to(self, t):
         me = self.current
         if t is me:
             return
+        self._streak = 0
         self.current = t
         t.baton.release()
         me.baton.acquire()
@@ -387,6 +437,7 @@ class ShimEvent:
         s = self._sched
         s.point('event-wait')
         if self._flag:
+            s.yield_point('event-already-set')
             return True
         reason = s.block(('event', id(self)), timeout)
         return True if reason == 'event' else self._flag
